@@ -95,7 +95,7 @@ package loadbalancer
 //@   guarantee no_early_readmission: !old(b.IsHealthy) && b.IsHealthy ==> now() > old(b.UnhealthyUntil)
 
 //@ func (*LoadBalancer).MarkBackendUnhealthy
-//@   props C04
+//@   props C02 C04
 //@   mode seq, mon
 //@   requires backend != nil && unlocked(backend.Mutex) && lbOK(lb)
 //@   requires unlocked(lb.metricsCollector.metrics.mutex) && bmCellsOK(lb.metricsCollector)
